@@ -134,6 +134,10 @@ def stepLine (s : DSt) (ws : List String) : DSt × String :=
         | .error e => (s, "err:" ++ showErr e)
       | none => (s, "bad-op")
     | _, _, _, _, _, _ => (s, "bad-op")
+  | ["faulted"] =>
+    -- the directory failed while the existing reservations were listed: the request fails with the
+    -- backend's error and nothing is stored (`Reserve.apply` is not run)
+    (s, "err:other:AdminConnectionError store=" ++ showStore s.store)
   | verb :: rid :: rest =>
     if verb = "create" || verb = "update" then
       match decodeStr rid, parseRq rest with
